@@ -209,7 +209,27 @@ pub fn compare_decode(ctx: &Ctx, s: &Shape, input: &[u8], order: u64, st: &mut L
                     st.accepted += 1;
                     *st.classes.entry("accept").or_insert(0) += 1;
                 }
-                if v != rv {
+                if opts.c04 {
+                    // C04 is about totality / bounds / resources: what is decoded is C03's concern.
+                    // The remainder must still be a suffix of the input (memory safety).
+                    let off = rem_ptr.wrapping_sub(base);
+                    if off > input.len() || off + rem_len != input.len() {
+                        ctx.violation("remainder-outside-input", format!("remainder at +{} len {} for an input of {} bytes", off, rem_len, input.len()), order, case());
+                    }
+                    for (p, l) in borrows.ranges.borrow().iter() {
+                        let o = p.wrapping_sub(base);
+                        if o > input.len() || o + l > input.len() {
+                            ctx.violation("borrow-outside-input", format!("borrowed slice at +{} len {} lies outside the {}-byte input", o, l, input.len()), order, case());
+                        }
+                    }
+                    if v == rv {
+                        let got: Vec<(usize, usize)> = borrows.ranges.borrow().iter().map(|(p, l)| (p.wrapping_sub(base), *l)).collect();
+                        let want: Vec<(usize, usize)> = sd.takes.iter().filter(|t| t.borrowed).map(|t| (t.off, t.len)).collect();
+                        if got != want {
+                            ctx.violation("borrow-range", format!("borrowed ranges {:?}, the fields were encoded at {:?}", got, want), order, case());
+                        }
+                    }
+                } else if v != rv {
                     ctx.violation("value", format!("decoded {:?}, spec says {:?}", rv, v), order, case());
                 } else if *rem_ptr != base + consumed || *rem_len != input.len() - consumed {
                     ctx.violation(
@@ -219,23 +239,28 @@ pub fn compare_decode(ctx: &Ctx, s: &Shape, input: &[u8], order: u64, st: &mut L
                         case(),
                     );
                 }
-                if opts.c04 {
-                    // every borrowed str/bytes lies inside the input at the position the spec predicts
-                    let got: Vec<(usize, usize)> = borrows.ranges.borrow().iter().map(|(p, l)| (p.wrapping_sub(base), *l)).collect();
-                    let want: Vec<(usize, usize)> = sd.takes.iter().filter(|t| t.borrowed).map(|t| (t.off, t.len)).collect();
-                    if got != want {
-                        ctx.violation("borrow-range", format!("borrowed ranges {:?}, spec predicts {:?}", got, want), order, case());
-                    }
-                }
             }
             (Err(k), Err(e)) => {
                 if at_end == placements[0] {
                     *st.classes.entry(kind_name(*k)).or_insert(0) += 1;
                 }
-                if *k != ErrKind::Other && map_err(e) != *k {
+                if !opts.c04 && *k != ErrKind::Other && map_err(e) != *k {
                     ctx.violation("error-kind", format!("rejected with {:?}, spec names {:?}", e, k), order, case());
                 }
             }
+            (Err(_), Ok((_, rem_ptr, rem_len))) if opts.c04 => {
+                let off = rem_ptr.wrapping_sub(base);
+                if off > input.len() || off + rem_len != input.len() {
+                    ctx.violation("remainder-outside-input", format!("remainder at +{} len {} for an input of {} bytes", off, rem_len, input.len()), order, case());
+                }
+                for (p, l) in borrows.ranges.borrow().iter() {
+                    let o = p.wrapping_sub(base);
+                    if o > input.len() || o + l > input.len() {
+                        ctx.violation("borrow-outside-input", format!("borrowed slice at +{} len {} lies outside the {}-byte input", o, l, input.len()), order, case());
+                    }
+                }
+            }
+            (Ok(_), Err(_)) if opts.c04 => {}
             (Err(k), Ok((rv, _, rem_len))) => {
                 // classify the known char defect precisely
                 let lenient = lenient_char_decode(s, input);
